@@ -13,7 +13,8 @@ import (
 
 type CaseC02 struct {
 	Box     ref.Box
-	Spatial bool // use the z/f/x/y notation (H == V)
+	Spatial bool  // use the z/f/x/y notation (H == V)
+	Rows    int64 `json:",omitempty"` // sweep: number of rows the shared-face comparison follows down the column (default 13)
 }
 
 func genC02(t *rapid.T) *CaseC02 {
@@ -186,6 +187,26 @@ func checkC02(c *CaseC02, fl *Fails) {
 			if ss[0].Lat() != vs[3].Lat() || ss[1].Lat() != vs[2].Lat() {
 				fl.Add("shared-face", "%s south edge %v but southern neighbour's north edge %v", id, vs[2].Lat(), ss[0].Lat())
 			}
+			// ... and so on down the column: a mismatch between two differently rounded formulas for the same edge shows
+			// in about one row in 10^5, so every case follows the column for a dozen more rows
+			prev := ss
+			rows := int64(13)
+			if c.Rows > 0 {
+				rows = c.Rows
+			}
+			for k := int64(2); k <= rows && b.Y+k < n; k++ {
+				s.Y = b.Y + k
+				cur, err := c02Query(c, s, enum.Vertex)
+				if err != nil || len(cur) != 8 {
+					break
+				}
+				Count("c02_column_row_pairs", 1)
+				if cur[0].Lat() != prev[3].Lat() || cur[1].Lat() != prev[2].Lat() {
+					fl.Add("shared-face", "row %d of column %d at zoom %d: south edge %v but the next row's north edge %v", s.Y-1, s.X, s.H, prev[2].Lat(), cur[0].Lat())
+					break
+				}
+				prev = cur
+			}
 		}
 	}
 	if b.F+1 < int64(1)<<uint(b.V) {
@@ -200,6 +221,19 @@ func checkC02(c *CaseC02, fl *Fails) {
 }
 
 func sweepC02(tier string, emit func(*CaseC02)) {
+	// long columns: tens of thousands of consecutive rows at mid latitudes, every shared edge compared bit for bit
+	rows := int64(40000)
+	if tier != "quick" {
+		rows = 400000
+	}
+	for _, h := range []int64{13, 17, 20, 22, 25, 28, 31, 35} {
+		n := int64(1) << uint(h)
+		y := n/2 - n/5 // about 58 degrees north ... the run moves south from there
+		if h <= 17 {
+			y = n / 8
+		}
+		emit(&CaseC02{Box: ref.Box{H: h, X: n - n/9, Y: y, V: 25, F: 3}, Rows: min64(rows, n-y-2)})
+	}
 	for h := int64(0); h <= 35; h++ {
 		for v := int64(0); v <= 35; v++ {
 			if tier == "quick" && (h*7+v)%4 != 0 && h != v {
